@@ -252,3 +252,10 @@ Print Assumptions C15_create_order.
 Theorem C15_create_sort_permutes : forall x l, In x (sort_files l) <-> In x l.
 Proof. exact In_sort_files. Qed.
 Print Assumptions C15_create_sort_permutes.
+
+(* a cue.mod (in any case) below the root makes CheckZip reject the archive *)
+Theorem C15_hostile_nested_cue_mod_rejected : forall is_letter fold_min zs es e pre x suf,
+  In e es -> split_slash (entry_name e) = pre ++ x :: suf -> pre <> [] -> ascii_eqfold x s_cue_mod = true ->
+  checked_err (check_zip is_letter fold_min zs es) = true.
+Proof. exact hostile_nested_cue_mod_rejected. Qed.
+Print Assumptions C15_hostile_nested_cue_mod_rejected.
